@@ -283,4 +283,19 @@ theorem rest_closed (s : St) (h3 : s.stage ≤ 3) (hf : FlagInv s) (hq : relayEn
     · simp [step, St.get, St.live, hst, hs, hd2, hh2, hr2, h, hi2] at he2
   · rfl
 
+theorem frags_sum : ∀ (fuel n : Nat), n < fuel → (frags fuel n).sum = n := by
+  intro fuel
+  induction fuel with
+  | zero => intro n h; omega
+  | succ f ih =>
+    intro n h
+    unfold frags
+    split
+    · rename_i h0; simp [h0]
+    · rename_i h0
+      have hm : 1 ≤ min n maxPlaintext := by unfold maxPlaintext; omega
+      have hle : min n maxPlaintext ≤ n := Nat.min_le_left _ _
+      rw [List.sum_cons, ih (n - min n maxPlaintext) (by omega)]
+      omega
+
 end BfeVerif.C47
